@@ -590,12 +590,64 @@ func DocIsolation(p *core.Program, r *core.Report, rule string) {
 				bad = fmt.Sprintf("%s is assigned %s inside the loop", id.Name, core.ExprStr(rhs))
 			}
 		case *ast.BranchStmt:
+			if x.Tok == token.CONTINUE {
+				return true // judged below on its path condition
+			}
 			bad = x.Tok.String() + " inside the conversion loop at " + p.Pos(x.Pos())
 		case *ast.ReturnStmt:
 			bad = "return inside the conversion loop at " + p.Pos(x.Pos())
 		}
 		return true
 	})
+	// a `continue` is a decision about THIS document only if its path condition talks about variables of the iteration
+	// only (declared inside the loop, or the loop variables) - not about state that other documents left behind
+	{
+		inLoop := func(o types.Object) bool { return o != nil && o.Pos() >= loop.Pos() && o.Pos() <= loop.End() }
+		lw := facts.NewWalker(info)
+		lw.OnBranch = func(b *ast.BranchStmt, states uint64, f facts.Formula) {
+			if b.Tok != token.CONTINUE || b.Pos() < loop.Pos() || b.Pos() > loop.End() || bad != "" {
+				return
+			}
+			for _, a := range facts.Atoms(f) {
+				txt := facts.StripVersions(a)
+				if i := strings.Index(txt, ":"); i >= 0 {
+					txt = txt[i+1:]
+				}
+				isId := func(c byte) bool {
+					return c == '_' || c >= '0' && c <= '9' || c >= 'a' && c <= 'z' || c >= 'A' && c <= 'Z'
+				}
+				for k := 0; k < len(txt); {
+					if isId(txt[k]) && !(txt[k] >= '0' && txt[k] <= '9') {
+						e := k
+						for e < len(txt) && isId(txt[e]) {
+							e++
+						}
+						if k == 0 || txt[k-1] != '.' {
+							if o := objNamed(fd, txt[k:e]); o != nil && !inLoop(o) {
+								if v, isV := o.(*types.Var); isV && v.Parent() != nil && v.Pkg() != nil && v.Parent() != v.Pkg().Scope() {
+									// a parameter is not loop-carried state either
+									isParam := false
+									sig := fd.Obj.Type().(*types.Signature)
+									for q := 0; q < sig.Params().Len(); q++ {
+										if types.Object(sig.Params().At(q)) == o {
+											isParam = true
+										}
+									}
+									if !isParam {
+										bad = "the continue at " + p.Pos(b.Pos()) + " depends on " + txt[k:e] + ", which outlives the iteration"
+									}
+								}
+							}
+						}
+						k = e
+						continue
+					}
+					k++
+				}
+			}
+		}
+		lw.WalkBody(fd.Decl.Body, nil)
+	}
 	r.Check(bad == "", rule, fd.Key()+": converting one document cannot affect how another is converted or whether it is kept", p.Pos(loop.Pos()),
 		"loop-carried state: appends to the result/error lists and set-only flags; no break/continue/return", "the per-document loop carries state between documents or can skip documents: "+bad)
 	// the converter writes nothing but its own fresh object
@@ -630,9 +682,12 @@ func DocIsolation(p *core.Program, r *core.Report, rule string) {
 		if !ok || !core.IsBuiltinCall(info, c, "append") || !strings.Contains(info.TypeOf(c.Args[0]).String(), "K8sObject") {
 			return
 		}
-		for _, a := range facts.Atoms(f) {
-			if strings.HasPrefix(a, "nil:k8sObj") && facts.Entails(f, facts.Not{X: facts.Atom(a)}) {
-				okKeep = true
+		// the appended element (`*obj`, `obj`) is known to be non-nil
+		if len(c.Args) >= 2 {
+			if root := core.RootIdent(c.Args[1]); root != nil {
+				if facts.Entails(f, facts.MkNot(facts.Atom("nil:"+w.Path(root)))) {
+					okKeep = true
+				}
 			}
 		}
 	}
@@ -641,6 +696,19 @@ func DocIsolation(p *core.Program, r *core.Report, rule string) {
 	// a failed conversion is reported: in the converter, every return of a nil object with a nil error is the unknown-kind skip
 	cw := facts.NewWalker(cinfo)
 	nSkip, nErr := 0, 0
+	var targetVars []*types.Var
+	ast.Inspect(conv.Decl.Body, func(nd ast.Node) bool {
+		if c, ok := nd.(*ast.CallExpr); ok && len(c.Args) == 2 {
+			if fn := core.Callee(cinfo, c); fn != nil && fn.Name() == "FromUnstructured" {
+				if id, isId := ast.Unparen(c.Args[1]).(*ast.Ident); isId {
+					if v, isV := cinfo.ObjectOf(id).(*types.Var); isV {
+						targetVars = append(targetVars, v)
+					}
+				}
+			}
+		}
+		return true
+	})
 	cw.OnStmt = func(s ast.Stmt, f facts.Formula) {
 		ret, ok := s.(*ast.ReturnStmt)
 		if !ok || len(ret.Results) != 2 || cw.FuncLitDepth > 0 {
@@ -651,8 +719,9 @@ func DocIsolation(p *core.Program, r *core.Report, rule string) {
 				nSkip++
 				// only under objField == nil (kind not in the parser's table)
 				okSkip := false
-				for _, a := range facts.Atoms(f) {
-					if strings.HasPrefix(a, "nil:objField") && facts.Entails(f, facts.Atom(a)) {
+				// the typed target of the conversion: the local handed to FromUnstructured as its destination
+				for _, tv := range targetVars {
+					if facts.Entails(f, facts.Atom("nil:"+cw.PathOfVar(tv))) {
 						okSkip = true
 					}
 				}
